@@ -125,7 +125,9 @@ func genArgs(t *rapid.T, plugin string, v6 bool) []string {
 		}
 		return a
 	case "mtu":
-		return []string{strconv.Itoa(rapid.SampledFrom([]int{0, 68, 576, 1280, 1400, 1500, 9000, 65535, rapid.IntRange(0, 65535).Draw(t, "mtu")}).Draw(t, "mtu-pick"))}
+		v := strconv.Itoa(rapid.SampledFrom([]int{0, 68, 576, 1280, 1400, 1500, 9000, 65535, rapid.IntRange(0, 65535).Draw(t, "mtu")}).Draw(t, "mtu-pick"))
+		// the argument is a decimal integer: leading zeros and an explicit sign do not change it
+		return []string{rapid.SampledFrom([]string{"", "", "", "", "0", "00", "+", "+0"}).Draw(t, "mtu-spelling") + v}
 	case "searchdomains":
 		n := rapid.IntRange(1, 4).Draw(t, "ndomains")
 		var a []string
